@@ -104,6 +104,12 @@ func c10Body(o c10Opts) func() {
 					}
 					s.Close()
 					serverCalledClose = true
+					// "after a local Close every later operation fails": also while the close is still deferred to the
+					// end of this very callback
+					s.BufferWriter().WriteBytes([]byte("late"))
+					if err := s.Flush(false); err != ErrStreamClosed {
+						vrt.Failf("write-after-close", "Flush after Close (called inside OnData, which is still running) returned %v", err)
+					}
 				}
 			}
 			s.SetCallbacks(rc)
